@@ -66,12 +66,15 @@ def run_checks(src, checks, tier):
             t = time.time()
             env = dict(os.environ)
             env["VERIF_REPO"] = wt
+            env["VERIF_OUT"] = "/tmp/mut/out-%d-%s" % (os.getpid(), c)
+            os.makedirs(env["VERIF_OUT"] + "/evidence", exist_ok=True)
             # keep the committed evidence file: save and restore around the run
             ev = os.path.join(VERIF, "evidence", "%s.json" % c)
             saved = open(ev).read() if os.path.exists(ev) else None
             rc, out = sh("./check %s --tier %s" % (c, tier), cwd=VERIF, env=env, timeout=7200)
-            if saved is not None:
+            if saved is not None and open(ev).read() != saved:
                 open(ev, "w").write(saved)
+            shutil.rmtree(env["VERIF_OUT"], ignore_errors=True)
             keys = re.findall(r"clause=\S+ key=(\S+)", out)
             results[c] = dict(exit=rc, wall_s=round(time.time() - t, 1), violation_keys=keys[:8], harness="HARNESS" in out, tail=out.strip().splitlines()[-3:][0][:300] if out.strip() else "")
     finally:
